@@ -46,6 +46,10 @@ type hscript struct {
 	Name  string  `json:"name"`
 	Kind  string  `json:"kind"` // real|fake
 	Steps []hstep `json:"steps"`
+	// Init: the route list of the initial configuration, in THIS order (default n1:/r1, n2:/r2).  Lists that are not
+	// in path order matter: the initial configuration is the only one that reaches the runner without having been an
+	// argument of Config.Equal first.
+	Init []rt `json:"init,omitempty"`
 }
 
 var stateCode = map[string]int{"New": 0, "Booting": 1, "Running": 2, "Reloading": 3, "Stopping": 4, "Stopped": 5, "Error": 6, "Unknown": 7}
@@ -160,6 +164,7 @@ type hist struct {
 	lastDelivered atomic.Int64 // table index of the configuration the callback delivered last
 	foreignNow map[string]bool // canonical addresses the harness itself holds bound (guarded by mu)
 	envNoise   string
+	lastTable  string // path -> answering route, as last observed on a Running real server
 	portNoise  int
 	censusObs  int
 	initIdx    int
@@ -489,6 +494,7 @@ func (h *hist) snapshot(quiet bool) string {
 		served := true
 		if dial[exp.Addr] && h.sc.Kind == "real" {
 			tblS, tbl = h.serveTable(h.real[exp.Addr])
+			h.lastTable = tblS
 			for _, p := range pathUniverse {
 				want := "-"
 				for _, r := range exp.Routes {
@@ -604,6 +610,18 @@ func (h *hist) variant(kind string, r *prng.R) (string, cfgSpec) {
 	cur := h.cfgs[h.curIdx]
 	c := cur
 	c.Routes = append([]rt{}, cur.Routes...)
+	fresh := func() rt { // a route on a path (and with a name) no route of c uses
+		used := map[string]bool{}
+		for _, r := range c.Routes {
+			used[r.Path], used[r.Name] = true, true
+		}
+		for i, p := range pathUniverse {
+			if n := fmt.Sprintf("n%d", i+1); !used[p] && !used[n] {
+				return rt{n, p}
+			}
+		}
+		return rt{"nx", "/rx"}
+	}
 	switch kind {
 	case "same", "errold": // errold: the callback fails with an error wrapping ErrOldConfig; nothing is delivered
 	case "perm":
@@ -620,7 +638,7 @@ func (h *hist) variant(kind string, r *prng.R) (string, cfgSpec) {
 	case "routes":
 		switch len(c.Routes) {
 		case 1:
-			c.Routes = append(c.Routes, rt{"n2", "/r2"})
+			c.Routes = append(c.Routes, fresh())
 		case 2:
 			c.Routes[1] = rt{c.Routes[1].Name + "x", c.Routes[1].Path}
 		default:
@@ -630,7 +648,7 @@ func (h *hist) variant(kind string, r *prng.R) (string, cfgSpec) {
 		if len(c.Routes) >= 2 {
 			c.Routes[0].Path, c.Routes[1].Path = c.Routes[1].Path, c.Routes[0].Path
 		} else {
-			c.Routes = append(c.Routes, rt{"n2", "/r2"})
+			c.Routes = append(c.Routes, fresh())
 		}
 	case "zeroto": // timeouts switched off
 		if c.Read == 0 && c.Write == 0 && c.Idle == 0 {
@@ -687,6 +705,9 @@ func (h *hist) run() {
 	h.foreign = map[string]net.Listener{}
 	c0 := cfgSpec{Addr: "A0", Drain: int64(3 * time.Second), Read: int64(5 * time.Second), Write: int64(5 * time.Second),
 		Idle: int64(30 * time.Second), Routes: []rt{{"n1", "/r1"}, {"n2", "/r2"}}}
+	if len(h.sc.Init) > 0 {
+		c0.Routes = append([]rt{}, h.sc.Init...)
+	}
 	h.curIdx = h.intern(c0)
 	h.prevIdx = h.curIdx
 	h.next.Store(strconv.Itoa(h.curIdx))
@@ -829,6 +850,7 @@ func (h *hist) run() {
 			h.snapshot(h.runStarted && !hung)
 		case "reload":
 			before := h.runner.GetState()
+			tableBefore := h.lastTable
 			kind, nc := h.variant(s.Cfg, r)
 			changed := !equivSpec(nc, h.cfgs[h.curIdx])
 			failStop := h.fakeFail.Load() && h.sc.Kind == "fake"
@@ -956,8 +978,13 @@ func (h *hist) run() {
 				case kind == "err" || kind == "nil" || kind == "busy" || (changed && failStop):
 					h.prop("c13-visible", after == "Error", "reload #%d (%s): state after = %s", si, kind, after)
 				case !changed:
-					h.prop("c13-unchanged", len(created) == 0 && shut == 0 && after == "Running",
-						"reload #%d (%s): created=%d shutdowns=%d state=%s", si, kind, len(created), shut, after)
+					// "leaves the live server untouched": nothing created or shut down, and every path is still answered by the
+					// route that answered it before the reload (own-handler identity, real server)
+					sameTable := h.sc.Kind != "real" || tableBefore == "" || strings.Contains(tableBefore+h.lastTable, "!") ||
+						tableBefore == h.lastTable
+					h.prop("c13-unchanged", len(created) == 0 && shut == 0 && after == "Running" && sameTable,
+						"reload #%d (%s): created=%d shutdowns=%d state=%s routes-answer-as-before=%v (before %s after %s)", si, kind,
+						len(created), shut, after, sameTable, tableBefore, h.lastTable)
 				default:
 					if after == "Running" {
 						want := h.intern(nc)
@@ -1102,6 +1129,13 @@ func fixedScripts() []hscript {
 		{Name: "stop-before-run", Steps: []hstep{stop, run}},
 		{Name: "cancel-before-run", Steps: []hstep{can, run}},
 		{Name: "unchanged", Steps: []hstep{run, rl("same"), rl("perm"), stop}},
+		// initial route lists that are not in path order; equal-but-freshly-built and permuted configurations, changed
+		// ones in between; every step that ends Running is probed per route (own-handler identity)
+		{Name: "unsorted-unchanged", Init: []rt{{"n4", "/r4"}, {"n1", "/r1"}, {"n3", "/r3"}},
+			Steps: []hstep{run, rl("same"), rl("same"), rl("perm"), rl("same"), stop}},
+		{Name: "unsorted-two", Init: []rt{{"n2", "/r2"}, {"n1", "/r1"}}, Steps: []hstep{run, rl("same"), rl("timeout"), rl("same"), rl("perm"), can}},
+		{Name: "unsorted-names-vs-paths", Init: []rt{{"n1", "/r3"}, {"n3", "/r1"}, {"n2", "/r2"}},
+			Steps: []hstep{run, rl("perm"), rl("same"), rl("swap"), rl("same"), rl("repath"), rl("same"), stop}},
 		{Name: "each-field", Steps: []hstep{run, rl("addr"), rl("timeout"), rl("routes"), rl("drain"), rl("idle"), rl("write"), can}},
 		{Name: "cancel-inside-run-boot", Steps: []hstep{{Op: "run", During: "probe-cancel"}}},
 		{Name: "stop-inside-run-boot", Steps: []hstep{{Op: "run", During: "probe-stop"}}},
@@ -1165,6 +1199,21 @@ func randomScript(r *prng.R, i int) hscript {
 		s.Steps = append(s.Steps, hstep{Op: "cancel"})
 	case 2:
 		s.Steps = append(s.Steps, hstep{Op: "fbind"})
+	}
+	if !r.Chance(1, 3) { // a random initial route list: 1..3 routes on random distinct paths, in random order, names permuted
+		idx := []int{0, 1, 2, 3}
+		for i := len(idx) - 1; i > 0; i-- {
+			j := r.Intn(i + 1)
+			idx[i], idx[j] = idx[j], idx[i]
+		}
+		k := 1 + r.Intn(3)
+		for x := 0; x < k; x++ {
+			nm := idx[x]
+			if r.Chance(1, 3) {
+				nm = idx[(x+1)%k] // a name that belongs to another path's number
+			}
+			s.Init = append(s.Init, rt{fmt.Sprintf("n%d", nm+1), pathUniverse[idx[x]]})
+		}
 	}
 	s.Steps = append(s.Steps, hstep{Op: "run"})
 	n := 1 + r.Intn(4)
